@@ -58,6 +58,9 @@ func (vc *VC) evalMulti(st *State, e ast.Expr) []Term {
 		case token.AND:
 			return []Term{vc.evalAddr(st, x)}
 		case token.ARROW:
+			if vc.isTokenChan(x.X) {
+				return []Term{vc.tokenRecv(st, x.X, x)}
+			}
 			vc.fail(e, "channel receive outside chanmodel")
 		}
 	case *ast.BinaryExpr:
@@ -628,4 +631,51 @@ func (vc *VC) checkGuardExpr(st *State, e ast.Expr, write bool) {
 	sc := st.clone()
 	owner := vc.evalExprQuiet(sc, se.X)
 	vc.checkGuard(st, vc.ts.apply(pt.Elem()), se.Sel.Name, owner.S, write, e)
+}
+
+// ---- 1-slot "token" channels that serialise access to a state object (s := <-ch ... ch <- s)
+
+func (vc *VC) isTokenChan(e ast.Expr) bool {
+	toks := vc.spec.Opts["tokens"]
+	if toks == "" {
+		return false
+	}
+	se, ok := ast.Unparen(e).(*ast.SelectorExpr)
+	if !ok {
+		return false
+	}
+	for _, t := range strings.Split(toks, ",") {
+		if strings.TrimSpace(t) == se.Sel.Name {
+			return true
+		}
+	}
+	return false
+}
+
+func (vc *VC) tokenHeaps(st *State, elemT types.Type) (held Term, val Term, vname, vsort string) {
+	es := vc.u.SortOf(elemT)
+	vname, vsort = "G$tokval$"+sanitize(es), "(Array Int "+es+")"
+	held = vc.heapGet(st, "G$tokheld", "(Array Int Int)", nil)
+	val = vc.heapGet(st, vname, vsort, elemT)
+	return
+}
+
+func (vc *VC) tokenRecv(st *State, chE ast.Expr, at ast.Node) Term {
+	ch := vc.evalExpr(st, chE)
+	et := vc.ts.apply(under(ch.T).(*types.Chan).Elem())
+	held, val, _, _ := vc.tokenHeaps(st, et)
+	vc.oblige(st, "token-protocol", "receive from state channel "+exprString(chE)+" while its token is not already held by this activation", vc.pos(at),
+		not(eq(sel(held.S, ch.S), "1")), nil)
+	st.heap["G$tokheld"] = Term{S: store(held.S, ch.S, "1"), Sort: "(Array Int Int)"}
+	vc.note("assumed: a 1-slot state channel behaves as a mutex around its state object (receive = acquire, send = release)")
+	return vc.mk(sel(val.S, ch.S), et)
+}
+
+func (vc *VC) tokenSend(st *State, chE ast.Expr, v Term, at ast.Node) {
+	ch := vc.evalExpr(st, chE)
+	et := vc.ts.apply(under(ch.T).(*types.Chan).Elem())
+	held, val, _, _ := vc.tokenHeaps(st, et)
+	vc.oblige(st, "token-protocol", "send on state channel "+exprString(chE)+" returns the token that was taken (same object, held exactly once)", vc.pos(at),
+		and(eq(sel(held.S, ch.S), "1"), eq(v.S, sel(val.S, ch.S))), nil)
+	st.heap["G$tokheld"] = Term{S: store(held.S, ch.S, "0"), Sort: "(Array Int Int)"}
 }
